@@ -1,6 +1,496 @@
 /-
 Helper lemmas for C08 (arithmetic of marker versions).
+
+Closed-form membership characterisations of `past?`, `futureFills`, `futurePowers`,
+the skip-list slice and `future?`, and the key combinatorial lemma `exists_future_past`.
 -/
 import AkdModel.Marker
 namespace Akd.Marker
+
+/-! ## `pushDedup` and the fold of `past?` -/
+
+theorem mem_pushDedup {acc : List Nat} {v x : Nat} : x ∈ pushDedup acc v ↔ x ∈ acc ∨ x = v := by
+  unfold pushDedup
+  cases h : acc.getLast? with
+  | none => simp
+  | some l =>
+    simp only
+    split
+    · simp
+    · rename_i hv
+      have hv : v = l := by simpa using hv
+      subst hv
+      have : v ∈ acc := List.mem_of_getLast? h
+      constructor
+      · intro hx; exact Or.inl hx
+      · rintro (hx | hx)
+        · exact hx
+        · subst hx; exact this
+
+theorem mem_foldl_pushDedup (c1 c2 : Nat → Prop) [DecidablePred c1] [DecidablePred c2] (g : Nat → Nat)
+    (l : List Nat) (init : List Nat) (x : Nat) :
+    x ∈ l.foldl (fun acc i => if c1 i then (if c2 i then pushDedup acc (g i) else acc) else acc) init ↔
+      x ∈ init ∨ ∃ i ∈ l, c1 i ∧ c2 i ∧ x = g i := by
+  induction l generalizing init with
+  | nil => simp
+  | cons a l ih =>
+    rw [List.foldl_cons, ih]
+    by_cases h1 : c1 a <;> by_cases h2 : c2 a <;> simp [h1, h2, mem_pushDedup, or_assoc] 
+
+theorem and_two_pow_eq_zero_iff (x i : Nat) : x &&& 2 ^ i = 0 ↔ x / 2 ^ i % 2 = 0 := by
+  have h1 : x.testBit i = decide (x / 2 ^ i % 2 = 1) := Nat.testBit_eq_decide_div_mod_eq
+  constructor
+  · intro h
+    have : (x &&& 2 ^ i).testBit i = false := by rw [h]; simp
+    rw [Nat.testBit_and, Nat.testBit_two_pow_self, Bool.and_true, h1] at this
+    simp at this; omega
+  · intro h
+    apply Nat.eq_of_testBit_eq
+    intro j
+    rw [Nat.testBit_and, Nat.testBit_two_pow]
+    by_cases hj : i = j
+    · subst hj; simp [h1, h]
+    · simp [hj]
+
+theorem or_one_of_even (a : Nat) (h : a % 2 = 0) : a ||| 1 = a + 1 := by
+  have h1 : (a ||| 1) / 2 = a / 2 := by rw [Nat.or_div_two]; simp
+  have h2 : (a ||| 1) % 2 = 1 := by rw [Nat.or_mod_two_eq_one]; simp
+  omega
+
+/-- index of the largest skip-list element `≤ x` -/
+def maxIdx (x : Nat) : Nat := (skiplist.takeWhile (· ≤ x)).length - 1
+/-- the largest skip-list element `≤ x` (for `1 ≤ x`) -/
+def skFloor (x : Nat) : Nat := skiplist.getD (maxIdx x) 0
+
+theorem findMaxIndex?_eq {x : Nat} (h : 1 ≤ x) : findMaxIndex? x = some (maxIdx x) := by
+  simp [findMaxIndex?, maxIdx]; omega
+
+theorem log2?_eq {x : Nat} (h : 1 ≤ x) : log2? x = some (Nat.log2 x) := by
+  simp [log2?]; omega
+
+theorem mem_past {s x : Nat} (hs : 1 ≤ s) :
+    x ∈ (past? s).getD [] ↔
+      (x = skFloor s ∧ x ≠ s) ∨ (x = 2 ^ Nat.log2 s ∧ x ≠ s) ∨
+      ∃ i, i < bitLength s ∧ s / 2 ^ i % 2 = 1 ∧ x = s / 2 ^ (i+1) * 2 ^ (i+1) ∧ x ≠ 0 := by
+  simp only [past?, findMaxIndex?_eq hs, log2?_eq hs, Option.bind_eq_bind, Option.bind_some, Option.pure_def, Option.getD_some]
+  rw [mem_foldl_pushDedup]
+  simp only [Nat.one_shiftLeft]
+  simp only [Nat.shiftRight_eq_div_pow, Nat.shiftLeft_eq, ne_eq, and_two_pow_eq_zero_iff,
+    List.mem_reverse, List.mem_range, skFloor]
+  have e : ∀ i, (¬ s / 2 ^ i % 2 = 0) ↔ s / 2 ^ i % 2 = 1 := by intro i; omega
+  simp only [e]
+  generalize skiplist.getD (maxIdx s) 0 = k
+  generalize 2 ^ s.log2 = p
+  have e2 : ∀ i, (¬ s / 2 ^ (i+1) * 2 ^ (i+1) = 0 ∧ x = s / 2 ^ (i+1) * 2 ^ (i+1)) ↔
+      (x = s / 2 ^ (i+1) * 2 ^ (i+1) ∧ ¬ x = 0) := by
+    intro i; constructor
+    · rintro ⟨a, b⟩; exact ⟨b, b ▸ a⟩
+    · rintro ⟨a, b⟩; exact ⟨a ▸ b, a⟩
+  simp only [e2]
+  generalize (∃ i, i < bitLength s ∧ s / 2 ^ i % 2 = 1 ∧ x = s / 2 ^ (i + 1) * 2 ^ (i + 1) ∧ ¬x = 0) = Q
+  by_cases h1 : p = s <;> by_cases h2 : k = s <;> simp [h1, h2, mem_pushDedup] <;> grind
+
+/-! ## the skip list -/
+
+
+theorem maxIdx_cases (x : Nat) (h : 1 ≤ x) :
+    (x < 2 ∧ maxIdx x = 0) ∨ (2 ≤ x ∧ x < 4 ∧ maxIdx x = 1) ∨ (4 ≤ x ∧ x < 16 ∧ maxIdx x = 2) ∨
+    (16 ≤ x ∧ x < 256 ∧ maxIdx x = 3) ∨ (256 ≤ x ∧ x < 65536 ∧ maxIdx x = 4) ∨
+    (65536 ≤ x ∧ x < 4294967296 ∧ maxIdx x = 5) ∨ (4294967296 ≤ x ∧ maxIdx x = 6) := by
+  unfold maxIdx skiplist
+  simp only [List.takeWhile]
+  repeat' split
+  all_goals simp_all
+  all_goals omega
+
+theorem skFloor_spec (t : Nat) (h : 1 ≤ t) :
+    skFloor t ∈ skiplist ∧ skFloor t ≤ t ∧ ∀ k ∈ skiplist, k ≤ t → k ≤ skFloor t := by
+  unfold skFloor
+  rcases maxIdx_cases t h with h | h | h | h | h | h | h <;>
+    simp [h, skiplist] <;> omega
+
+theorem maxIdx_mono {n E : Nat} (hn : 1 ≤ n) (h : n ≤ E) : maxIdx n ≤ maxIdx E := by
+  rcases maxIdx_cases n hn with h1 | h1 | h1 | h1 | h1 | h1 | h1 <;>
+  rcases maxIdx_cases E (by omega) with h2 | h2 | h2 | h2 | h2 | h2 | h2 <;> omega
+
+/-- the skip-list slice appended by `future?` -/
+def slice (n E : Nat) : List Nat := (skiplist.drop (maxIdx n + 1)).take (maxIdx E - maxIdx n)
+
+/-- the slice is exactly the skip-list elements in `(n, E]` (also when `E < n`: both sides empty) -/
+theorem mem_slice {n E x : Nat} (hn : 1 ≤ n) (hE : 1 ≤ E) :
+    x ∈ slice n E ↔ x ∈ skiplist ∧ n < x ∧ x ≤ E := by
+  unfold slice
+  rcases maxIdx_cases n hn with h1 | h1 | h1 | h1 | h1 | h1 | h1 <;>
+  rcases maxIdx_cases E hE with h2 | h2 | h2 | h2 | h2 | h2 | h2 <;>
+  (simp [h1, h2, skiplist]; omega)
+
+/-! ## `futureFills` -/
+
+/-- the loop body of `futureFills` -/
+def fillStep (n E : Nat) (st : Nat × List Nat) (i : Nat) : Nat × List Nat :=
+  if n &&& 2 ^ i = 0 then
+    (((st.1 ||| 2 ^ i) / 2 ^ i) * 2 ^ i,
+      if ((st.1 ||| 2 ^ i) / 2 ^ i) * 2 ^ i ≤ E then st.2 ++ [((st.1 ||| 2 ^ i) / 2 ^ i) * 2 ^ i] else st.2)
+  else st
+
+theorem futureFills_eq (n E : Nat) :
+    futureFills n E = ((List.range (bitLength n)).foldl (fillStep n E) (n, [])).2 := by
+  unfold futureFills fillStep
+  simp only [Nat.one_shiftLeft]
+  simp only [Nat.shiftRight_eq_div_pow, Nat.shiftLeft_eq]
+
+theorem fillStep_inv (n E k : Nat) :
+    ((List.range k).foldl (fillStep n E) (n, [])).1 / 2 ^ k = n / 2 ^ k ∧
+    ∀ x, x ∈ ((List.range k).foldl (fillStep n E) (n, [])).2 ↔
+      ∃ i, i < k ∧ n / 2 ^ i % 2 = 0 ∧ x = (n / 2 ^ i + 1) * 2 ^ i ∧ x ≤ E := by
+  induction k with
+  | zero => simp
+  | succ k ih =>
+    rw [List.range_succ, List.foldl_append]
+    generalize (List.range k).foldl (fillStep n E) (n, []) = st at ih ⊢
+    obtain ⟨ih1, ih2⟩ := ih
+    simp only [List.foldl_cons, List.foldl_nil]
+    have hdiv : ∀ a : Nat, a / 2 ^ (k+1) = a / 2 ^ k / 2 := by
+      intro a; rw [Nat.pow_succ, Nat.div_div_eq_div_mul]
+    unfold fillStep
+    by_cases hb : n / 2 ^ k % 2 = 0
+    · have hb' : n &&& 2 ^ k = 0 := (and_two_pow_eq_zero_iff n k).2 hb
+      simp only [hb', if_true]
+      have hv : (st.1 ||| 2 ^ k) / 2 ^ k = n / 2 ^ k + 1 := by
+        rw [Nat.or_div_two_pow, ih1, Nat.div_self (Nat.two_pow_pos k), or_one_of_even _ hb]
+      rw [hv]
+      constructor
+      · rw [hdiv, Nat.mul_div_cancel _ (Nat.two_pow_pos k), hdiv]; omega
+      · intro x
+        have hmem : x ∈ (if (n / 2 ^ k + 1) * 2 ^ k ≤ E then st.2 ++ [(n / 2 ^ k + 1) * 2 ^ k] else st.2) ↔
+            x ∈ st.2 ∨ (x = (n / 2 ^ k + 1) * 2 ^ k ∧ x ≤ E) := by
+          split
+          · rename_i hle
+            simp only [List.mem_append, List.mem_singleton]
+            constructor
+            · rintro (h | h)
+              · exact Or.inl h
+              · exact Or.inr ⟨h, h ▸ hle⟩
+            · rintro (h | h)
+              · exact Or.inl h
+              · exact Or.inr h.1
+          · rename_i hle
+            constructor
+            · intro h; exact Or.inl h
+            · rintro (h | ⟨h, h'⟩)
+              · exact h
+              · exact absurd (h ▸ h') hle
+        rw [hmem, ih2]
+        constructor
+        · rintro (⟨i, hi, h⟩ | h)
+          · exact ⟨i, by omega, h⟩
+          · exact ⟨k, by omega, hb, h⟩
+        · rintro ⟨i, hi, h⟩
+          by_cases hik : i = k
+          · subst hik; exact Or.inr h.2
+          · exact Or.inl ⟨i, by omega, h⟩
+    · have hb' : ¬ n &&& 2 ^ k = 0 := fun h => hb ((and_two_pow_eq_zero_iff n k).1 h)
+      simp only [hb', if_false]
+      constructor
+      · rw [hdiv, hdiv, ih1]
+      · intro x
+        rw [ih2]
+        constructor
+        · rintro ⟨i, hi, h⟩; exact ⟨i, by omega, h⟩
+        · rintro ⟨i, hi, h⟩
+          have : i ≠ k := by rintro rfl; exact hb h.1
+          exact ⟨i, by omega, h⟩
+
+/-! ## `futurePowers` -/
+
+/-- the loop body of `futurePowers` -/
+def powStep (oh : Option Nat) (next : Nat) (st : Bool × List Nat) (k : Nat) : Bool × List Nat :=
+  if st.1 then st else
+    match oh with
+    | some h => if 2 ^ (next + k) ≥ h then (true, st.2) else (false, st.2 ++ [2 ^ (next + k)])
+    | none => (false, st.2 ++ [2 ^ (next + k)])
+
+theorem futurePowers_eq (slice : List Nat) (next final : Nat) :
+    futurePowers slice next final =
+      ((List.range (final + 1 - next)).foldl (powStep slice.head? next) (false, [])).2 := by
+  unfold futurePowers powStep
+  simp only [Nat.one_shiftLeft]
+  rfl
+
+theorem powStep_inv (oh : Option Nat) (next c : Nat) :
+    ((((List.range c).foldl (powStep oh next) (false, [])).1 = true →
+        ∃ h, oh = some h ∧ ∃ k, k < c ∧ h ≤ 2 ^ (next + k))) ∧
+    ∀ x, x ∈ ((List.range c).foldl (powStep oh next) (false, [])).2 ↔
+      ∃ k, k < c ∧ x = 2 ^ (next + k) ∧ ∀ h, oh = some h → 2 ^ (next + k) < h := by
+  induction c with
+  | zero => simp
+  | succ c ih =>
+    rw [List.range_succ, List.foldl_append]
+    generalize (List.range c).foldl (powStep oh next) (false, []) = st at ih ⊢
+    obtain ⟨ih1, ih2⟩ := ih
+    simp only [List.foldl_cons, List.foldl_nil]
+    have ext : ∀ x, (∃ k, k < c + 1 ∧ x = 2 ^ (next + k) ∧ ∀ h, oh = some h → 2 ^ (next + k) < h) ↔
+        (∃ k, k < c ∧ x = 2 ^ (next + k) ∧ ∀ h, oh = some h → 2 ^ (next + k) < h) ∨
+        (x = 2 ^ (next + c) ∧ ∀ h, oh = some h → 2 ^ (next + c) < h) := by
+      intro x
+      constructor
+      · rintro ⟨k, hk, h⟩
+        by_cases hkc : k = c
+        · subst hkc; exact Or.inr h
+        · exact Or.inl ⟨k, by omega, h⟩
+      · rintro (⟨k, hk, h⟩ | h)
+        · exact ⟨k, by omega, h⟩
+        · exact ⟨c, by omega, h⟩
+    unfold powStep
+    cases hb : st.1 with
+    | true =>
+      simp only [if_true]
+      obtain ⟨h, hh, k, hk, hle⟩ := ih1 hb
+      refine ⟨fun _ => ⟨h, hh, k, by omega, hle⟩, ?_⟩
+      intro x
+      rw [ext, ih2]
+      constructor
+      · exact Or.inl
+      · rintro (h1 | ⟨_, h2⟩)
+        · exact h1
+        · have := h2 h hh
+          have : 2 ^ (next + k) ≤ 2 ^ (next + c) := Nat.pow_le_pow_right (by omega) (by omega)
+          omega
+    | false =>
+      simp only [Bool.false_eq_true, if_false]
+      match oh with
+      | none =>
+        simp only [Bool.false_eq_true, false_implies, true_and]
+        intro x
+        rw [ext, List.mem_append, ih2]
+        simp
+      | some h =>
+        simp only
+        split
+        · rename_i hge
+          refine ⟨fun _ => ⟨h, rfl, c, by omega, hge⟩, ?_⟩
+          intro x
+          rw [ext, ih2]
+          constructor
+          · exact Or.inl
+          · rintro (h1 | ⟨_, h2⟩)
+            · exact h1
+            · have := h2 h rfl; omega
+        · rename_i hlt
+          simp only [Bool.false_eq_true, false_implies, true_and]
+          intro x
+          rw [ext, List.mem_append, ih2]
+          have hlt' : 2 ^ (next + c) < h := by omega
+          simp [hlt']
+
+/-! ## arithmetic -/
+
+theorem div_pow_succ (a k : Nat) : a / 2 ^ (k + 1) = a / 2 ^ k / 2 := by
+  rw [Nat.pow_succ, Nat.div_div_eq_div_mul]
+
+/-- highest differing bit of `n < t` -/
+theorem exists_split_bit (n t : Nat) (h : n < t) :
+    ∃ i, n / 2 ^ i % 2 = 0 ∧ t / 2 ^ i = n / 2 ^ i + 1 := by
+  have aux : ∀ k, n / 2 ^ k = t / 2 ^ k → ∃ i, n / 2 ^ i % 2 = 0 ∧ t / 2 ^ i = n / 2 ^ i + 1 := by
+    intro k
+    induction k with
+    | zero => intro h0; simp at h0; omega
+    | succ k ih =>
+      intro hk
+      by_cases hk' : n / 2 ^ k = t / 2 ^ k
+      · exact ih hk'
+      · refine ⟨k, ?_⟩
+        rw [div_pow_succ, div_pow_succ] at hk
+        have : n / 2 ^ k ≤ t / 2 ^ k := Nat.div_le_div_right (by omega)
+        omega
+  apply aux t
+  rw [Nat.div_eq_of_lt (Nat.lt_trans h Nat.lt_two_pow_self), Nat.div_eq_of_lt Nat.lt_two_pow_self]
+
+theorem lt_succ_div_mul (n i : Nat) : n < (n / 2 ^ i + 1) * 2 ^ i := by
+  have := Nat.lt_mul_div_succ n (Nat.two_pow_pos i)
+  rwa [Nat.mul_comm] at this
+
+/-- rounding `t` down at any bit is either `t` or a one-bit clear of `t` -/
+theorem round_down_is_clear (t k : Nat) (h : t / 2 ^ k * 2 ^ k ≠ t) :
+    ∃ j, j < k ∧ t / 2 ^ j % 2 = 1 ∧ t / 2 ^ (j + 1) * 2 ^ (j + 1) = t / 2 ^ k * 2 ^ k := by
+  induction k with
+  | zero => simp at h
+  | succ k ih =>
+    by_cases hb : t / 2 ^ k % 2 = 1
+    · exact ⟨k, by omega, hb, rfl⟩
+    · have e : t / 2 ^ (k + 1) * 2 ^ (k + 1) = t / 2 ^ k * 2 ^ k := by
+        rw [div_pow_succ, Nat.pow_succ, Nat.mul_comm (2 ^ k) 2, ← Nat.mul_assoc]
+        congr 1
+        omega
+      rw [e] at h ⊢
+      obtain ⟨j, hj, h1, h2⟩ := ih h
+      exact ⟨j, by omega, h1, h2⟩
+
+theorem pow_le_of_div_pos {t j : Nat} (h : 0 < t / 2 ^ j) : 2 ^ j ≤ t := by
+  have := Nat.div_mul_le_self t (2 ^ j)
+  have : 1 * 2 ^ j ≤ t / 2 ^ j * 2 ^ j := Nat.mul_le_mul_right _ h
+  omega
+
+/-! ## closed forms -/
+
+theorem bitLength_eq {n : Nat} (hn : 1 ≤ n) : bitLength n = Nat.log2 n + 1 := by
+  simp [bitLength]; omega
+
+theorem mem_futureFills {n E x : Nat} :
+    x ∈ futureFills n E ↔
+      ∃ i, i < bitLength n ∧ n / 2 ^ i % 2 = 0 ∧ x = (n / 2 ^ i + 1) * 2 ^ i ∧ x ≤ E := by
+  rw [futureFills_eq]; exact (fillStep_inv n E (bitLength n)).2 x
+
+theorem mem_futurePowers {slice : List Nat} {next final x : Nat} :
+    x ∈ futurePowers slice next final ↔
+      ∃ j, next ≤ j ∧ j ≤ final ∧ x = 2 ^ j ∧ ∀ h, slice.head? = some h → 2 ^ j < h := by
+  rw [futurePowers_eq, (powStep_inv slice.head? next (final + 1 - next)).2 x]
+  constructor
+  · rintro ⟨k, hk, h⟩; exact ⟨next + k, by omega, by omega, h⟩
+  · rintro ⟨j, h1, h2, h⟩
+    refine ⟨j - next, by omega, ?_⟩
+    rwa [show next + (j - next) = j by omega]
+
+theorem future?_eq' {n E : Nat} (hn : 1 ≤ n) (hE : 1 ≤ E) :
+    future? n E = if maxIdx n > maxIdx E then none else some (futureFills n E ++
+      futurePowers (slice n E) (Nat.log2 n + 1) (Nat.log2 E) ++ slice n E) := by
+  simp only [future?, findMaxIndex?_eq hn, findMaxIndex?_eq hE, log2?_eq hn, log2?_eq hE,
+    Option.bind_eq_bind, Option.bind_some, Option.pure_def, slice]
+  split <;> rfl
+
+theorem future?_eq {n E : Nat} (hn : 1 ≤ n) (h : n ≤ E) :
+    future? n E = some (futureFills n E ++
+      futurePowers (slice n E) (Nat.log2 n + 1) (Nat.log2 E) ++ slice n E) := by
+  have hE : 1 ≤ E := by omega
+  have hm : ¬ maxIdx n > maxIdx E := by have := maxIdx_mono hn h; omega
+  rw [future?_eq' hn hE, if_neg hm]
+
+theorem past?_isSome {s : Nat} (hs : 1 ≤ s) : (past? s).isSome = true := by
+  simp only [past?, findMaxIndex?_eq hs, log2?_eq hs, Option.bind_eq_bind, Option.bind_some,
+    Option.pure_def, Option.isSome_some]
+
+/-- `future?` panics on `endV = 0` (also on `epoch = 0`, or when `endV`'s skip-list index is above
+`epoch`'s, see `future?_eq'`). -/
+theorem future?_eq_none_of_zero (E : Nat) : future? 0 E = none := by
+  simp [future?, findMaxIndex?]
+
+theorem mem_future {n E x : Nat} (hn : 1 ≤ n) (h : n ≤ E) :
+    x ∈ (future? n E).getD [] ↔
+      x ∈ futureFills n E ∨ x ∈ futurePowers (slice n E) (Nat.log2 n + 1) (Nat.log2 E) ∨
+        x ∈ slice n E := by
+  rw [future?_eq hn h]; simp
+
+/-! ## bounds -/
+
+theorem past?_zero : past? 0 = none := by simp [past?, findMaxIndex?]
+
+theorem clear_lt {s i : Nat} (h : s / 2 ^ i % 2 = 1) : s / 2 ^ (i + 1) * 2 ^ (i + 1) < s := by
+  have e : s / 2 ^ (i + 1) * 2 ^ (i + 1) = (s / 2 ^ i / 2 * 2) * 2 ^ i := by
+    rw [div_pow_succ, Nat.pow_succ, Nat.mul_comm (2 ^ i) 2, ← Nat.mul_assoc]
+  have h2 : s / 2 ^ i / 2 * 2 + 1 = s / 2 ^ i := by
+    generalize s / 2 ^ i = q at h; omega
+  have h3 : (s / 2 ^ i / 2 * 2 + 1) * 2 ^ i ≤ s := by rw [h2]; exact Nat.div_mul_le_self _ _
+  rw [Nat.add_mul] at h3
+  have := Nat.two_pow_pos i
+  omega
+
+theorem past_bounds {s x : Nat} (h : x ∈ (past? s).getD []) : 1 ≤ x ∧ x < s := by
+  by_cases hs : 1 ≤ s
+  · rw [mem_past hs] at h
+    rcases h with ⟨rfl, hne⟩ | ⟨rfl, hne⟩ | ⟨i, _, hb, rfl, hne⟩
+    · obtain ⟨s1, s2, _⟩ := skFloor_spec s hs
+      have : 1 ≤ skFloor s := by
+        revert s1; generalize skFloor s = k; simp [skiplist]; omega
+      omega
+    · have := Nat.log2_self_le (show s ≠ 0 by omega)
+      have := Nat.two_pow_pos s.log2
+      omega
+    · exact ⟨by omega, clear_lt hb⟩
+  · have : s = 0 := by omega
+    subst this
+    simp [past?_zero] at h
+
+theorem future_bounds {n E x : Nat} (h : x ∈ (future? n E).getD []) : n < x ∧ x ≤ E := by
+  by_cases hn : 1 ≤ n
+  · by_cases hE : 1 ≤ E
+    · rw [future?_eq' hn hE] at h
+      split at h
+      · simp at h
+      · simp only [Option.getD_some, List.mem_append] at h
+        rcases h with (h | h) | h
+        · rw [mem_futureFills] at h
+          obtain ⟨i, _, _, rfl, hle⟩ := h
+          exact ⟨lt_succ_div_mul n i, hle⟩
+        · rw [mem_futurePowers] at h
+          obtain ⟨j, h1, h2, rfl, _⟩ := h
+          constructor
+          · exact (Nat.log2_lt (show n ≠ 0 by omega)).1 (by omega)
+          · exact (Nat.le_log2 (show E ≠ 0 by omega)).1 h2
+        · rw [mem_slice hn hE] at h
+          exact h.2
+    · have : E = 0 := by omega
+      subst this
+      simp [future?, findMaxIndex?] at h
+  · have : n = 0 := by omega
+    subst this
+    simp [future?, findMaxIndex?] at h
+
+/-! ## the key lemma -/
+
+/-- For `1 ≤ n < t ≤ E` some future marker of `n` (up to `E`) is `t` itself or a past marker
+of `t`. -/
+theorem exists_future_past {n t E : Nat} (hn : 1 ≤ n) (hnt : n < t) (htE : t ≤ E) :
+    ∃ x, x ∈ (future? n E).getD [] ∧ (x = t ∨ x ∈ (past? t).getD []) := by
+  have ht : 1 ≤ t := by omega
+  have hnE : n ≤ E := by omega
+  by_cases hk : ∃ k, k ∈ skiplist ∧ n < k ∧ k ≤ t
+  · -- a skip-list element separates `n` and `t`
+    obtain ⟨k, hk1, hk2, hk3⟩ := hk
+    obtain ⟨s1, s2, s3⟩ := skFloor_spec t ht
+    have := s3 k hk1 hk3
+    refine ⟨skFloor t, ?_, ?_⟩
+    · rw [mem_future hn hnE, mem_slice hn (by omega)]
+      exact Or.inr (Or.inr ⟨s1, by omega, by omega⟩)
+    · by_cases he : skFloor t = t
+      · exact Or.inl he
+      · exact Or.inr ((mem_past ht).2 (Or.inl ⟨rfl, he⟩))
+  · -- no skip-list element in `(n, t]`: round at the highest differing bit
+    obtain ⟨i, hi0, hi1⟩ := exists_split_bit n t hnt
+    refine ⟨(n / 2 ^ i + 1) * 2 ^ i, ?_, ?_⟩
+    · have hle : (n / 2 ^ i + 1) * 2 ^ i ≤ t := by rw [← hi1]; exact Nat.div_mul_le_self _ _
+      rw [mem_future hn hnE]
+      by_cases hz : n / 2 ^ i = 0
+      · refine Or.inr (Or.inl ?_)
+        rw [hz] at hle ⊢
+        simp only [Nat.zero_add, Nat.one_mul] at hle ⊢
+        rw [mem_futurePowers]
+        have hlt : n < 2 ^ i := by
+          have := lt_succ_div_mul n i; rw [hz] at this; simpa using this
+        refine ⟨i, ?_, ?_, rfl, ?_⟩
+        · have := (Nat.log2_lt (show n ≠ 0 by omega)).2 hlt; omega
+        · exact (Nat.le_log2 (show E ≠ 0 by omega)).2 (by omega)
+        · intro h hh
+          have hmem : h ∈ slice n E := List.mem_of_head? hh
+          rw [mem_slice hn (by omega)] at hmem
+          have : ¬ h ≤ t := fun hc => hk ⟨h, hmem.1, hmem.2.1, hc⟩
+          omega
+      · refine Or.inl ?_
+        rw [mem_futureFills]
+        refine ⟨i, ?_, hi0, rfl, by omega⟩
+        rw [bitLength_eq hn]
+        have := (Nat.le_log2 (show n ≠ 0 by omega)).2 (pow_le_of_div_pos (Nat.pos_of_ne_zero hz))
+        omega
+    · rw [← hi1]
+      by_cases he : t / 2 ^ i * 2 ^ i = t
+      · exact Or.inl he
+      · refine Or.inr ((mem_past ht).2 (Or.inr (Or.inr ?_)))
+        obtain ⟨j, hj, h1, h2⟩ := round_down_is_clear t i he
+        refine ⟨j, ?_, h1, h2.symm, ?_⟩
+        · rw [bitLength_eq ht]
+          have := (Nat.le_log2 (show t ≠ 0 by omega)).2 (pow_le_of_div_pos (show 0 < t / 2 ^ j by
+            generalize t / 2 ^ j = q at h1; omega))
+          omega
+        · have := lt_succ_div_mul n i
+          rw [hi1]; omega
+
 end Akd.Marker
